@@ -255,7 +255,9 @@ def rule_local_sheet_id(chk, fb):
         "scope follows the owner: for every defined name kept by a sheet the workbook writer either writes no localSheetId (name without one) or writes one that derives from the sheet's position in the loop over the sheet list and from nothing else",
         floor=1,
     )
-    d = "writer::xlsx::workbook::write"
+    # the workbook writer, or the private function of its module the <definedNames> block was moved to
+    cands = [x for x, xb in sorted(fb.mir.items()) if x.startswith("writer::xlsx::workbook::") and "::{closure" not in x and any(t.get("fn", "").endswith("DefinedName::write_to") for _, t in fb.calls_in(xb))]
+    d = cands[0] if cands else "writer::xlsx::workbook::write"
     b = fb.mir.get(d)
     if not b:
         chk.ob(r, "anchor", False, detail="workbook writer not found")
